@@ -129,6 +129,40 @@ def run(ctx: Ctx):
                          f"self.peers: _assign_peer_connection looks the peer up under host_identity "
                          f"and silently returns for a differently spelled (e.g. mixed-case) "
                          f"Origin-Host - Peer.connection stays unset although the connection is ready")
+    # writer/reader agreement of Node.peers: stored under the very name the Peer carries
+    ap = nc.methods.get("add_peer")
+    cons = "add_peer:table-key-is-node-name"
+    ctx.inst(cons)
+    if ap is None:
+        ctx.error("Node.add_peer not found")
+    else:
+        ctx.use(ap)
+        stores_ = [n for n in A.walk_no_nested(ap.node) if isinstance(n, ast.Assign) and any(
+            isinstance(t, ast.Subscript) and A.dotted(t.value) == "self.peers" for t in n.targets)]
+        if not stores_:
+            ctx.fail(cons, ap.loc(), "add_peer does not store the peer in self.peers")
+        for st in stores_:
+            key = [t for t in st.targets if isinstance(t, ast.Subscript)][0].slice
+            ktxt = A.resolve_local_chain(ap.node, key)
+            # the stored value: Peer(...) directly or a single-assignment local
+            val = st.value
+            if isinstance(val, ast.Name):
+                defs_ = [n.value for n in A.walk_no_nested(ap.node) if isinstance(n, ast.Assign)
+                         and len(n.targets) == 1 and A.dotted(n.targets[0]) == val.id]
+                val = defs_[0] if len(defs_) == 1 else val
+            nn = None
+            if isinstance(val, ast.Call) and A.call_name(val).split(".")[-1] == "Peer":
+                for k in val.keywords:
+                    if k.arg == "node_name":
+                        nn = A.resolve_local_chain(ap.node, k.value)
+                if nn is None and val.args:
+                    nn = A.resolve_local_chain(ap.node, val.args[0])
+            if nn is None or nn != ktxt:
+                ctx.fail(cons, ap.loc(st), f"the peer is stored in self.peers under `{ktxt}` but carries "
+                         f"node_name `{nn}`: every reader (_find_connection_peer, _add_peer_connection, "
+                         f"_assign_peer_connection) looks it up under its node_name / the connection's "
+                         f"node_name, so for some names (e.g. with upper-case letters) Peer.connection "
+                         f"is never bound although a live connection exists")
     flag = nc.methods.get("_flag_connection_as_ready")
     if flag is None:
         raise AnalysisError("Node._flag_connection_as_ready not found")
@@ -197,3 +231,5 @@ def run(ctx: Ctx):
         # the recomputation happens after the owner clear
         if clears and not all(g.can_reach(c, clears_ready[0]) for c in clears):
             ctx.fail(cons + "#order", rem.loc(), "readiness is recomputed before Peer.connection is cleared")
+    from .common_node import connect_failure_closes
+    connect_failure_closes(ctx, "C13-R7")
